@@ -3,23 +3,38 @@
 every quick check against it (VERIF_REPO points the machinery at the worktree); records which checks report it."""
 import json, os, subprocess, sys, glob, re
 HERE = os.path.dirname(os.path.dirname(os.path.abspath(__file__)))
-WT = '/tmp/matrixwt'
-OUT = os.environ.get('MATRIX_OUT') or os.path.join(HERE, 'seeded', 'matrix.json')
+# MATRIX_SHARD=i/n : this process takes every n-th seed (own worktree, cache and output file), so that several can run side by side
+SH_I, SH_N = (int(x) for x in (os.environ.get('MATRIX_SHARD') or '0/1').split('/'))
+SFX = '' if SH_N == 1 else str(SH_I)
+WT = '/tmp/matrixwt' + SFX
+OUT = (os.environ.get('MATRIX_OUT') or os.path.join(HERE, 'seeded', 'matrix.json')) + ('' if SH_N == 1 else '.%d' % SH_I)
 IDS = "C11 C01 C02 C03 C04 C05 C06 C07 C08 C09 C10 C12 C13 C14 C15 C16 C17 C18 C19".split()
-env = dict(os.environ, VERIF_DRIVER='/verif/factdump/target/release/factdump', VERIF_TMPLX='/verif/tmplx/target/release/tmplx', VERIF_REPO=WT, VERIF_CACHE='/tmp/matrix-cache', VERIF_EVIDENCE_DIR='/tmp/matrix-evidence', VERIF_REPLAY_DIR='/tmp/matrix-replays', VERIF_CACHE_KEEP='1', P='5')
+env = dict(os.environ, VERIF_DRIVER='/verif/factdump/target/release/factdump', VERIF_TMPLX='/verif/tmplx/target/release/tmplx', VERIF_REPO=WT, VERIF_CACHE='/tmp/matrix-cache' + SFX, VERIF_EVIDENCE_DIR='/tmp/matrix-evidence' + SFX, VERIF_REPLAY_DIR='/tmp/matrix-replays' + SFX, VERIF_SCRATCH='/tmp/matrix-scratch' + SFX, VERIF_CACHE_KEEP='1', P='5')
 
 def main():
     if not os.path.exists(WT):
         subprocess.run('git -C /repo worktree add -q --detach %s HEAD' % WT, shell=True, check=True)
+    # the worktree always follows /repo's HEAD (the fix commits move it)
+    head = subprocess.run('git -C /repo rev-parse HEAD', shell=True, capture_output=True, text=True).stdout.strip()
+    subprocess.run('git checkout -q -- . && git clean -fdq && git checkout -q --detach %s' % head, shell=True, cwd=WT, check=True)
     res = json.load(open(OUT)) if os.path.exists(OUT) else {}
+    unconfirmed = set()
+    for inc, sfx in (('_incoming', ''), ('_incoming2', '#2'), ('_incoming3', '#3')):
+        vf = os.path.join(HERE, 'seeded', inc, 'validation.json')
+        if os.path.exists(vf):
+            unconfirmed |= {k + sfx for k, v in json.load(open(vf)).items() if not v.get('confirmed')}
     seeds = sorted(glob.glob(HERE + '/seeded/_incoming*/C*/[0-9]/patch.diff')) + sorted(glob.glob(HERE + '/seeded/_negative/*.diff')) + sorted(glob.glob(HERE + '/seeded/_revert/*.diff'))
     only = sys.argv[1:]
-    for p in seeds:
-        key = ('/'.join(p.split('/')[-3:-1]) + ('#2' if '_incoming2' in p else '')) if p.endswith('patch.diff') else os.path.basename(p)[:-5]
+    for n_seed, p in enumerate(seeds):
+        if n_seed % SH_N != SH_I:
+            continue
+        key = ('/'.join(p.split('/')[-3:-1]) + ('#2' if '_incoming2' in p else '#3' if '_incoming3' in p else '')) if p.endswith('patch.diff') else os.path.basename(p)[:-5]
         if only and not any(o in key for o in only):
             continue
         if key in res and not only:
             continue
+        if key in unconfirmed:
+            continue          # e.g. a seeded change that a later fix commit made harmless
         subprocess.run('git checkout -q -- . && git clean -fdq', shell=True, cwd=WT)
         a = subprocess.run(['git', 'apply', p], cwd=WT, capture_output=True, text=True)
         if a.returncode != 0:
